@@ -29,6 +29,7 @@ type c05DigitCase struct {
 	Chain  bool   `json:"chain,omitempty"` // ALL windows below k set to 2^w-1: the carry ripples through every lower window and limb
 	Len    int    `json:"len"`             // vector length (>= pos+1); 0 means pos+1
 	Note   string `json:"note,omitempty"`
+	Raw    string `json:"raw,omitempty"` // explicit scalar (hex); overrides the digit description
 }
 
 func winWidth(pos int) int {
@@ -39,6 +40,9 @@ func winWidth(pos int) int {
 }
 
 func c05Scalar(c c05DigitCase) *big.Int {
+	if c.Raw != "" {
+		return hx.BigHex(c.Raw)
+	}
 	w := winWidth(c.Pos)
 	s := new(big.Int).Lsh(big.NewInt(int64(c.Digit)), uint(w*c.Window))
 	if c.Chain && c.Window > 0 {
@@ -147,6 +151,52 @@ func walkUnit(s *hx.Session, pos, k int, carry, chain bool) {
 	if (k+1)%(64/w) == 0 {
 		rec.LabelN("digits/last_window_of_limb", checks)
 	}
+}
+
+// walkWrap enumerates the scalars s = 2*d*2^(w*top) - r (0 < s < r) at one basis position: after recoding, the top
+// digit is d and the lower windows hold d*2^(w*top) - r, which is congruent to d*2^(w*top) modulo the group order, so the
+// running sum equals the table entry that is added last (the addition degenerates into a doubling).
+func walkWrap(s *hx.Session, pos int) {
+	w := winWidth(pos)
+	shift := uint(w * (256/w - 1))
+	cfg := Cfg()
+	Gi := hx.G.CRS()[pos]
+	step := hx.G.Mul(Gi, new(big.Int).Lsh(big.NewInt(2), shift))
+	vec := make([]fr.Element, pos+1)
+	var cur hx.RPt
+	started := false
+	checks := 0
+	for d := int64(1); d < 1<<uint(w); d++ {
+		sc := new(big.Int).Lsh(big.NewInt(2*d), shift)
+		sc.Sub(sc, ref.R)
+		if sc.Sign() <= 0 {
+			continue
+		}
+		if sc.Cmp(ref.R) >= 0 {
+			break
+		}
+		if !started {
+			cur = hx.G.Mul(Gi, sc)
+			started = true
+		} else {
+			cur = hx.G.Add(cur, step)
+		}
+		vec[pos] = hx.FrFromBig(sc)
+		c := c05DigitCase{Pos: pos, Window: 256/w - 1, Digit: int(d), Raw: sc.Text(16), Note: "running sum equals the last addend"}
+		var got banderwagon.Element
+		if e := hx.Try(func() { got = cfg.Commit(vec) }); e != nil {
+			s.Violation("digit", c, e)
+			return
+		}
+		checks++
+		if !hx.G.EqualProj(hx.FromImpl(&got), cur) {
+			s.Violation("digit", c, fmt.Errorf("Commit of the vector with only v[%d] = 2*%d*2^%d - r is not v*G_%d", pos, d, shift, pos))
+			return
+		}
+	}
+	s.Rec.Eval(checks)
+	s.Rec.NTEnum(checks)
+	s.Rec.LabelN(fmt.Sprintf("digits/wrap_doubling/w=%d", w), checks)
 }
 
 // ---- part 2: structured vectors
@@ -362,6 +412,12 @@ func TestC05(t *testing.T) {
 			if !s.Guard(func() { walkUnit(s, un.pos, un.k, mode == 1, mode == 2) }) {
 				complete = false
 			}
+		}
+	}
+	for i, pos := range []int{0, 1, 2, 3, 4, 5, 6, 100, 255} {
+		if hx.Sharded(i) && !s.Failed() && !s.Aborted() {
+			pos := pos
+			s.Guard(func() { walkWrap(s, pos) })
 		}
 	}
 	s.Rec.Extra("digit_units_enumerated", len(units))
